@@ -1,6 +1,7 @@
 import ParryModel.Field
 import ParryModel.C05.Model
 import ParryModel.C05.Lemmas
+import ParryModel.C05.Tri2
 set_option linter.style.haveILetI false
 /-!
 # C05 property theorems: point projection, for every linearly ordered field
@@ -745,5 +746,85 @@ theorem cub3_project_optimal_boundary (s : Cuboid3 K) (p q : V3 K) (solid : Bool
     letI := fieldNum K sq
     CubBnd3 s q → dsq3 p (s.project p solid).pt ≤ dsq3 p q :=
   aabb3_project_optimal_boundary sq _ _ p q solid (cubOk s h)
+
+
+/-! ## Triangle, 2-D (`point_triangle.rs`: Voronoi regions of the three vertices, three edges, and the face)
+
+Hypothesis `Tri2Ok`: the triangle is non-degenerate (`perp(ab, ac) ≠ 0`, either orientation).  On a degenerate triangle
+every edge test is disabled (`n = 0`) and the code reports points off the supporting line as inside; see the report. -/
+
+def Tri2Ok (s : Triangle2 K) : Prop :=
+  (s.b.x - s.a.x) * (s.c.y - s.a.y) - (s.b.y - s.a.y) * (s.c.x - s.a.x) ≠ 0
+
+/-- branch-by-branch summary (see `Tri2.lean`): either the non-solid interior tail, or member + variational inequality
++ `is_inside = (proj == pt)`. -/
+private theorem tri2_cases (s : Triangle2 K) (p : V2 K) (solid : Bool) (h : Tri2Ok s) :
+    letI := fieldNum K sq
+    (solid = false ∧ s.Mem p ∧ (s.projectLoc p solid).1.inside = true) ∨
+    (s.Mem (s.projectLoc p solid).1.pt ∧
+      (∀ q : V2 K, s.Mem q → (p.x - (s.projectLoc p solid).1.pt.x) * (q.x - (s.projectLoc p solid).1.pt.x)
+          + (p.y - (s.projectLoc p solid).1.pt.y) * (q.y - (s.projectLoc p solid).1.pt.y) ≤ 0) ∧
+      ((s.projectLoc p solid).1.inside = true ↔ (s.projectLoc p solid).1.pt = p)) := by
+  letI := fieldNum K sq
+  obtain ⟨⟨ax, ay⟩, ⟨bx, by'⟩, ⟨cx, cy⟩⟩ := s
+  obtain ⟨px, py⟩ := p
+  have := tri2_flat_core sq ax ay bx by' cx cy px py solid h _ _ _ _ _ _ _ _ _ _ _ _ rfl rfl rfl rfl rfl rfl rfl rfl rfl rfl
+    (@Triangle2.projectLoc K (fieldNum K sq) ⟨⟨ax, ay⟩, ⟨bx, by'⟩, ⟨cx, cy⟩⟩ ⟨px, py⟩ solid)
+    (tri2_projectLoc_eq_flat sq _ _ _)
+  rcases this with h1 | ⟨h1, h2, h3⟩
+  · exact Or.inl h1
+  · exact Or.inr ⟨h1, fun q hq => h2 q.x q.y hq, h3⟩
+
+/-- **membership**: for `solid = true`, or for a point outside the triangle, the projection is a point of the triangle. -/
+theorem tri2_project_mem (s : Triangle2 K) (p : V2 K) (solid : Bool) (h : Tri2Ok s) :
+    letI := fieldNum K sq
+    (solid = true ∨ ¬ s.Mem p) → s.Mem (s.projectLoc p solid).1.pt := by
+  letI := fieldNum K sq
+  intro hc
+  rcases tri2_cases sq s p solid h with ⟨h1, h2, _⟩ | ⟨h1, _, _⟩
+  · rcases hc with hc | hc
+    · rw [h1] at hc; exact absurd hc (by simp)
+    · exact absurd h2 hc
+  · exact h1
+
+/-- **optimality**: for `solid = true`, or for a point outside, no point of the triangle is closer than the projection
+(all seven Voronoi regions). -/
+theorem tri2_project_optimal (s : Triangle2 K) (p q : V2 K) (solid : Bool) (h : Tri2Ok s) :
+    letI := fieldNum K sq
+    s.Mem q → (solid = true ∨ ¬ s.Mem p) → dsq2 p (s.projectLoc p solid).1.pt ≤ dsq2 p q := by
+  letI := fieldNum K sq
+  intro hq hc
+  rcases tri2_cases sq s p solid h with ⟨h1, h2, _⟩ | ⟨_, h2, _⟩
+  · rcases hc with hc | hc
+    · rw [h1] at hc; exact absurd hc (by simp)
+    · exact absurd h2 hc
+  · exact opt_of_var2 _ _ _ _ _ _ (h2 q hq)
+
+/-- **inside flag**: `is_inside ⇔ p ∈ triangle`, both flags (2-D uses exact equality `proj == pt`). -/
+theorem tri2_inside_iff (s : Triangle2 K) (p : V2 K) (solid : Bool) (h : Tri2Ok s) :
+    letI := fieldNum K sq
+    (s.projectLoc p solid).1.inside = true ↔ s.Mem p := by
+  letI := fieldNum K sq
+  rcases tri2_cases sq s p solid h with ⟨_, h2, h3⟩ | ⟨h1, h2, h3⟩
+  · exact ⟨fun _ => h2, fun _ => h3⟩
+  · rw [h3]
+    constructor
+    · intro e; rw [← e]; exact h1
+    · intro hm
+      have h4 := opt_of_var2 _ _ _ _ _ _ (h2 p hm)
+      have h0 : (p.x - p.x) * (p.x - p.x) + (p.y - p.y) * (p.y - p.y) = (0 : K) := by ring
+      rw [h0] at h4
+      obtain ⟨hx, hy⟩ := sumsq2_eq_zero h4
+      exact (v2_ext (by linarith) (by linarith)).symm
+
+/-- `contains_local_point` (default method) `⇔ Mem` -/
+theorem tri2_contains_iff (s : Triangle2 K) (p : V2 K) (h : Tri2Ok s) :
+    letI := fieldNum K sq
+    defaultContains2 (s.project) p = true ↔ s.Mem p :=
+  tri2_inside_iff sq s p true h
+
+example : Tri2Ok (⟨⟨0, 0⟩, ⟨4, 0⟩, ⟨0, 3⟩⟩ : Triangle2 ℚ) ∧ (⟨⟨0, 0⟩, ⟨4, 0⟩, ⟨0, 3⟩⟩ : Triangle2 ℚ).Mem ⟨1, 1⟩ := by
+  refine ⟨by simp only [Tri2Ok]; norm_num, ⟨1/4, 1/3, by norm_num, by norm_num, by norm_num, ?_⟩⟩
+  simp only [V2.add, V2.sub, V2.smul]; norm_num
 
 end C05
